@@ -485,6 +485,14 @@ KeepUpTo(recs, f) ==
     ELSE IF recs[Len(recs)][1] > f THEN KeepUpTo(SubSeq(recs, 1, Len(recs) - 1), f)
     ELSE recs
 
+\* rollback_to_fork_number: the blocks after the fork number f are removed; when the latest kept record reaches
+\* beyond f (KF-C04-spanning-record) everything after its start.  A kept record that ends at or below f holds
+\* blocks of the common chain only and changes nothing (before fix 10f415f of /repo the target was its start + 1 in
+\* that case too: scripts above it were lowered into the record's range and raised again, over blocks that had
+\* been rolled back for them, when the record's blocks arrived)
+RollbackTarget(kept, f) ==
+    IF kept # <<>> /\ kept[Len(kept)][1] + kept[Len(kept)][2] > f + 1 THEN kept[Len(kept)][1] + 1 ELSE f + 1
+
 RolledKeys(x) == {k \in Keys : NumOf(k) >= x}
 
 RollbackTo(x) ==
@@ -507,7 +515,7 @@ CommitEffects(rg, nl, tipMoves) ==
               /\ RollbackTo(1) /\ over' = over \cup RolledKeys(1)
          ELSE IF fd.kind = "to"
          THEN LET kept == KeepUpTo(mdb, fd.f)
-                  x == (IF kept = <<>> THEN fd.f ELSE kept[Len(kept)][1]) + 1
+                  x == RollbackTarget(kept, fd.f)
               IN /\ mdb' = kept /\ mmem' = {} /\ RollbackTo(x) /\ over' = over \cup RolledKeys(x)
          ELSE UNCHANGED <<scripts, minF, mdb, mmem, over>> /\ IxUnchanged
 
